@@ -12,7 +12,7 @@
                         stored positions + equal fills) implies equal dense meaning everywhere;
      dense_sites_*    : every dense-allocation site of the anchored source files (table regenerated
                         from the source on every run) is either reviewed-acceptable or one of exactly
-                        two known product-of-extents sites. *)
+                        three known product-of-extents sites. *)
 From Coq Require Import String ZArith List Bool.
 From Verif Require Import Shape COO S_dense_sites SparseOps SparseOpsP.
 Import ListNotations.
@@ -189,8 +189,9 @@ Print Assumptions canon_eq_sound.
 (* ------------------------------------------------------------------ dense-allocation sites of the source
    Full statement:  forallb sanctioned dense_sites = true.
    It is FALSE of the source as it stands (findings G1: GCXS reductions recompress along all kept axes,
-   G2: GCXS indexing enumerates the selected columns), see dense_sites_sanctioned_refuted; the proved
-   part says every other site is reviewed-acceptable and the exceptions are exactly those two. *)
+   G2: GCXS indexing enumerates the selected columns, E1: a scalar operand is viewed at the full logical
+   shape), see dense_sites_sanctioned_refuted; the proved part says every other site is
+   reviewed-acceptable and the exceptions are exactly those three. *)
 Theorem dense_sites_sanctioned_refuted :
   exists s, In s dense_sites /\ sanctioned s = false /\ product_site s = true.
 Proof. exact dense_sites_sanctioned_refuted_proof. Qed.
@@ -203,6 +204,6 @@ Print Assumptions dense_sites_reviewed.
 
 Theorem product_sites_present :
   forallb (fun a => existsb (fun s => site_matches s a) dense_sites) product_sites = true
-  /\ length (filter product_site dense_sites) = 2%nat.
+  /\ length (filter product_site dense_sites) = 3%nat.
 Proof. exact product_sites_present_proof. Qed.
 Print Assumptions product_sites_present.
